@@ -23,12 +23,6 @@ CONSTANTS AllOrders,   \* TRUE: Examine in every order; FALSE: one canonical ord
 VARIABLES case, pc, todo, good, outcome
 vars == <<case, pc, todo, good, outcome>>
 
-Cases ==
-  { [sigs |-> [n \in Names |-> IF IsCanonName(n) THEN cs[KeyOf(n)] ELSE IF n \in AltNames THEN a[n] ELSE j[n]],
-     auth |-> au, thr |-> t, gpg |-> g] :
-      cs \in [Key -> CanonStates], a \in [AltNames -> AltStates], j \in [JunkNames -> JunkStates],
-      au \in SUBSET Key, t \in 1..MaxThr, g \in BOOLEAN }
-
 Present(c) == {n \in Names : c.sigs[n].shape # "absent"}
 
 (* requirement layer *)
@@ -58,7 +52,11 @@ CaseJson(c) ==
     strip_ok |-> Meets(Strip(c.sigs, c.auth, c.gpg), c.auth, c.thr, c.gpg),
     allowed |-> Allowed(c) ]
 
-Init == /\ case \in Cases
+(* one initial state per abstract call (written with \E so that TLC enumerates directly) *)
+Init == /\ \E cs \in [Key -> CanonStates], a \in [AltNames -> AltStates], j \in [JunkNames -> JunkStates],
+              au \in SUBSET Key, t \in 1..MaxThr, g \in BOOLEAN :
+              case = [sigs |-> [n \in Names |-> IF IsCanonName(n) THEN cs[KeyOf(n)] ELSE IF n \in AltNames THEN a[n] ELSE j[n]],
+                      auth |-> au, thr |-> t, gpg |-> g]
         /\ pc = "start" /\ todo = {} /\ good = {} /\ outcome = "none"
 
 Start == /\ pc = "start"
